@@ -71,6 +71,11 @@ pub struct FwdSend {
 	pub delta_adj: i8,
 	/// CLTV delta of the final hop (the recipient's share)
 	pub final_delta: u16,
+	/// when B's outgoing channel had its policy changed: bit 0 = pay the fee of the policy before the change,
+	/// bit 1 = leave the CLTV delta of the policy before the change (the library honours the previous policy as a
+	/// whole for a few timer ticks)
+	#[serde(default)]
+	pub use_prev: u8,
 }
 
 pub fn fwd_send_strategy() -> impl Strategy<Value = FwdSend> + Clone {
@@ -86,8 +91,9 @@ pub fn fwd_send_strategy() -> impl Strategy<Value = FwdSend> + Clone {
 		// mostly the usual final delta; sometimes around the forwarder's "outgoing expiry too soon" edge
 		// (next height + LATENCY_GRACE_PERIOD_BLOCKS), sometimes around the recipient's minimum
 		prop_oneof![14 => Just(TEST_FINAL_CLTV as u16), 2 => 1u16..=7, 1 => 40u16..=46, 1 => 60u16..120],
+		prop_oneof![3 => Just(0u8), 1 => 1u8..=3],
 	)
-		.prop_map(|(route, amt, fee_adj, delta_adj, final_delta)| FwdSend { route, amt, fee_adj, delta_adj, final_delta })
+		.prop_map(|(route, amt, fee_adj, delta_adj, final_delta, use_prev)| FwdSend { route, amt, fee_adj, delta_adj, final_delta, use_prev })
 }
 
 /// `htlc_minimum_msat` the peer of `node` on `chan` announced for HTLCs it receives.
@@ -150,6 +156,14 @@ impl Sim {
 			let mut fee = cfg.forwarding_fee_base_msat as u64 + carried * cfg.forwarding_fee_proportional_millionths as u64 / 1_000_000;
 			let mut delta = cfg.cltv_expiry_delta as u32;
 			if fwd == B {
+				if let Some((pb, pp, pd)) = self.prev_policy.get(&(B, chans[i + 1])).cloned() {
+					if s.use_prev & 1 != 0 {
+						fee = pb as u64 + carried * pp as u64 / 1_000_000;
+					}
+					if s.use_prev & 2 != 0 {
+						delta = pd as u32;
+					}
+				}
 				fee = (fee as i64 + s.fee_adj as i64).max(0) as u64;
 				delta = (delta as i64 + s.delta_adj as i64).max(0) as u32;
 			}
@@ -454,6 +468,8 @@ pub enum COp {
 	AsyncB { chan: u16, on: bool },
 	CompleteB { which: u16 },
 	CompleteAllB,
+	/// B changes the forwarding policy of one of its channels (`update_channel_config`)
+	UpdateConfigB { chan: u16, base: u32, ppm: u32, delta: u16 },
 	FlushDeferredB,
 	SnapshotB,
 	/// restart B from its snap-th newest manager snapshot and the durable (or latest written) monitor images
@@ -503,6 +519,7 @@ pub struct CWeights {
 	pub async_b: u32,
 	pub complete_b: u32,
 	pub snapshot_b: u32,
+	pub config_b: u32,
 	pub restart_b: u32,
 	pub force_close: u32,
 	pub mine: u32,
@@ -530,6 +547,7 @@ pub fn cop_strategy(w: CWeights) -> impl Strategy<Value = COp> + Clone {
 		(w.async_b, (any::<u16>(), proptest::bool::weighted(0.75)).prop_map(|(chan, on)| COp::AsyncB { chan, on }).boxed()),
 		(w.complete_b, prop_oneof![4 => any::<u16>().prop_map(|which| COp::CompleteB { which }), 2 => Just(COp::CompleteAllB), 1 => Just(COp::FlushDeferredB)].boxed()),
 		(w.snapshot_b, Just(COp::SnapshotB).boxed()),
+		(w.config_b, (any::<u16>(), prop_oneof![Just(0u32), Just(1000u32), 0u32..5_000], prop_oneof![Just(0u32), 0u32..20_000], prop_oneof![Just(72u16), 34u16..200]).prop_map(|(chan, base, ppm, delta)| COp::UpdateConfigB { chan, base, ppm, delta }).boxed()),
 		(w.restart_b, (prop_oneof![3 => Just(0u16), 1 => any::<u16>()], any::<bool>()).prop_map(|(snap, landed)| COp::RestartB { snap, landed }).boxed()),
 		(w.force_close, (any::<u16>(), any::<bool>()).prop_map(|(chan, by_funder)| COp::Base(Op::ForceClose { chan, by_funder })).boxed()),
 		(w.mine, (prop_oneof![3 => Just(1u8), 2 => 1u8..8, 1 => 6u8..40], any::<bool>()).prop_map(|(blocks, reverse)| COp::Mine { blocks, reverse }).boxed()),
@@ -685,6 +703,24 @@ pub fn apply_c02(sim: &mut Sim, spec: &WorldSpec, op: &COp) -> &'static str {
 		COp::SnapshotB => {
 			sim.snapshot_manager(B);
 			"snapshot"
+		},
+		COp::UpdateConfigB { chan, base, ppm, delta } => {
+			let mine: Vec<usize> = (0..sim.chans.len()).filter(|c| sim.chans[*c].a == B || sim.chans[*c].b == B).collect();
+			let ci = mine[pick(*chan, mine.len())];
+			let Some(cfg) = sim.chan_details(B, ci).and_then(|d| d.config) else { return "config-skipped" };
+			let mut new = cfg.clone();
+			new.forwarding_fee_base_msat = *base;
+			new.forwarding_fee_proportional_millionths = *ppm;
+			new.cltv_expiry_delta = (*delta).max(lightning::ln::channelmanager::MIN_CLTV_EXPIRY_DELTA);
+			let peer = sim.w.node_id(sim.peer_of(ci, B));
+			let id = sim.chans[ci].id;
+			let res = sim.w.nodes[B].node.update_channel_config(&peer, &[id], &new);
+			if res.is_ok() {
+				sim.prev_policy.insert((B, ci), (cfg.forwarding_fee_base_msat, cfg.forwarding_fee_proportional_millionths, cfg.cltv_expiry_delta));
+			}
+			sim.rec(SEvent::Api { node: B, what: format!("c02-config {} {} {} {}", ci, new.forwarding_fee_base_msat, new.forwarding_fee_proportional_millionths, new.cltv_expiry_delta), ok: res.is_ok(), detail: format!("{:?}", res) });
+			sim.drain(B);
+			"config-update"
 		},
 		COp::RestartB { snap, landed } => match sim.restart(B, *snap, *landed) {
 			Ok(()) => "restart",
@@ -873,6 +909,8 @@ pub struct FwdStats {
 	pub knowledge_lost: u64,
 	pub reforwards_after_undelivered: u64,
 	pub non_strict_forwards: u64,
+	pub config_updates: u64,
+	pub admissions_after_config_update: u64,
 	pub refused_forward_still_pending: u64,
 }
 
@@ -913,6 +951,9 @@ pub struct FwdOracle {
 	learning_now: Option<[u8; 32]>,
 	/// policy B advertised per channel: (base msat, ppm, cltv delta)
 	policy: Vec<Option<(u64, u64, u32)>>,
+	/// every policy a channel of B has carried, in order: (step it was set at, policy); the first entry is the
+	/// policy the channel was created with
+	policy_hist: Vec<Vec<(u64, (u64, u64, u32))>>,
 	start_msat: Vec<u64>,
 	start_reported_sat: Vec<Option<u64>>,
 	spendable: BTreeMap<OutPoint, (ChannelId, u64)>,
@@ -1033,6 +1074,7 @@ impl FwdOracle {
 			durability_checks: 0,
 			fulfil_marker: None,
 			learning_now: None,
+			policy_hist: policy.iter().map(|p| p.iter().map(|x| (0u64, *x)).collect()).collect(),
 			policy,
 			start_msat,
 			start_reported_sat: (0..sim.chans.len()).map(|ci| reported_open_sat(sim, ci)).collect(),
@@ -1205,6 +1247,15 @@ impl FwdOracle {
 					self.learning_now = None;
 					if node == B && what == "c02-fulfil-arrives" {
 						self.fulfil_marker = Some(ok);
+					}
+					if node == B && ok && what.starts_with("c02-config ") {
+						let f: Vec<u64> = what.split(' ').skip(1).filter_map(|x| x.parse().ok()).collect();
+						if f.len() == 4 && (f[0] as usize) < self.policy_hist.len() {
+							let pol = (f[1], f[2], f[3] as u32);
+							self.policy_hist[f[0] as usize].push((at, pol));
+							self.policy[f[0] as usize] = Some(pol);
+							self.stats.config_updates += 1;
+						}
 					}
 				},
 				M::S(SEvent::Emit { from, to, wire }) => self.on_emit(sim, at, from, to, &wire)?,
@@ -1501,12 +1552,26 @@ impl FwdOracle {
 					"in: chan {} id {} {} msat expiry {}; out: chan {} id {} {} msat expiry {}; policy base {} ppm {} delta {}",
 					p.up_chan, p.up_id, p.amt_in, p.cltv_in, chan, m.htlc_id, m.amount_msat, m.cltv_expiry, base, ppm, delta
 				);
+				// A channel whose policy was changed while this HTLC was on its way: the library honours the policy before
+				// the change, as a whole, for a few timer ticks. Every policy that was in force (or in its grace period)
+				// at some moment since the inbound HTLC arrived is acceptable, but only as a whole: fee and CLTV delta
+				// of the same policy.
+				let hist = &self.policy_hist[named.unwrap_or(chan)];
+				if hist.len() > 1 {
+					let live_from = hist.iter().rposition(|(t, _)| *t <= p.t_in).unwrap_or(0).saturating_sub(1);
+					let ok_whole = hist[live_from..].iter().any(|(_, (b, pp, d))| (p.amt_in as u128) >= m.amount_msat as u128 + *b as u128 + (m.amount_msat as u128 * *pp as u128) / 1_000_000 && (p.cltv_in as u64) >= m.cltv_expiry as u64 + *d as u64);
+					self.stats.admissions_after_config_update += 1;
+					if !ok_whole {
+						return Err(fail("admission-policy", format!("B forwarded an HTLC that satisfies none of the policies its outgoing channel carried since the HTLC arrived, taken as a whole (fee and CLTV delta of one and the same policy): {}; policies (step set, base, ppm, delta): {:?}", ctx, &hist[live_from..])).with_key("admission-policy/no-whole-policy-satisfied"));
+					}
+				} else {
 				let need_fee = base as u128 + (m.amount_msat as u128 * ppm as u128) / 1_000_000;
 				if (p.amt_in as u128) < m.amount_msat as u128 + need_fee {
 					return Err(fail("admission-fee", format!("B forwarded for less than its advertised fee ({} msat needed): {}", need_fee, ctx)).with_key("admission-fee"));
 				}
 				if (p.cltv_in as u64) < m.cltv_expiry as u64 + delta as u64 {
 					return Err(fail("admission-cltv-delta", format!("B forwarded with less than its advertised cltv_expiry_delta: {}", ctx)).with_key("admission-cltv-delta"));
+				}
 				}
 				// the outgoing expiry must be more than LATENCY_GRACE_PERIOD_BLOCKS beyond the next block height at
 				// the time B decided; B's height when the HTLC became irrevocably committed upstream is a lower bound
@@ -1523,9 +1588,10 @@ impl FwdOracle {
 				if m.amount_msat < min || m.amount_msat > maxf {
 					return Err(fail("admission-amount", format!("B forwarded an amount outside the next hop's announced limits [{}, {}]: {}", min, maxf, ctx)).with_key("admission-amount"));
 				}
-				let fee_slack = p.amt_in as u128 - (m.amount_msat as u128 + need_fee);
+				let need_fee = base as u128 + (m.amount_msat as u128 * ppm as u128) / 1_000_000;
+				let fee_slack = (p.amt_in as u128).saturating_sub(m.amount_msat as u128 + need_fee);
 				self.stats.fee_edge[if fee_slack == 0 { 0 } else if fee_slack == 1 { 1 } else { 2 }] += 1;
-				let delta_slack = p.cltv_in as u64 - (m.cltv_expiry as u64 + delta as u64);
+				let delta_slack = (p.cltv_in as u64).saturating_sub(m.cltv_expiry as u64 + delta as u64);
 				self.stats.delta_edge[if delta_slack == 0 { 0 } else if delta_slack == 1 { 1 } else { 2 }] += 1;
 				let p = self.pairs.get_mut(&hash).unwrap();
 				p.down = Some(Down { chan, id: m.htlc_id, amt_out: m.amount_msat, cltv_out: m.cltv_expiry, t_emit: at, delivered: false });
